@@ -45,7 +45,8 @@ Record site := { s_fn : fn; s_ord : nat; s_handlers : list (list cls * guard * a
 (* the anchored calls *)
 Inductive ckind :=
 | KRecvStub | KSend | KLoads | KLoadsCall | KDumps | KMethod | KValidate
-| KHandshake | KHandleRequest | KClientDisconnect | KDenyConnection | KJob | KEvents | KHandleConnection | KSendExc.
+| KHandshake | KHandleRequest | KClientDisconnect | KDenyConnection | KJob | KEvents | KHandleConnection | KSendExc
+| KHousekeeping.   (* Daemon._housekeeping(): item-stream cleanup + the user's housekeeping hook *)
 
 (* the [a_idx]-th call of kind [a_kind] in function [a_fn] (source order); [a_site] is the innermost site whose
    protected body contains the call (a call inside an except/finally/else block is not protected by that try) *)
@@ -72,6 +73,6 @@ Definition ckind_eqb (a b : ckind) : bool :=
   | KRecvStub, KRecvStub | KSend, KSend | KLoads, KLoads | KLoadsCall, KLoadsCall | KDumps, KDumps | KMethod, KMethod
   | KValidate, KValidate | KHandshake, KHandshake | KHandleRequest, KHandleRequest
   | KClientDisconnect, KClientDisconnect | KDenyConnection, KDenyConnection | KJob, KJob | KEvents, KEvents
-  | KHandleConnection, KHandleConnection | KSendExc, KSendExc => true
+  | KHandleConnection, KHandleConnection | KSendExc, KSendExc | KHousekeeping, KHousekeeping => true
   | _, _ => false
   end.
